@@ -221,6 +221,45 @@ tableau `Tf` of the standard form `s`: `OptimalTableau::as_lp_solution` applied 
 noncomputable def returnedSolution (s : StdModel (Ext K)) (Tf : Tab K) : SolverWrap.Solution (Ext K) :=
   SolverWrap.asLpSolution s.vars ((basicSolution Tf).map Ext.fin) (Ext.fin (optimalValue Tf))
 
+/-! ### both starts of `into_tableau` provide the interface -/
+
+/-- the direct start is available: a usable independent column for every row. -/
+def DirectStart (tol : K) (sK : StdModel K) : Prop :=
+  sK.rows.length ≤ (independentColumns tol sK.vars.length (sK.rows.map (·.coeffs))).length ∧
+  (selectPerRow sK.rows.length (independentColumns tol sK.vars.length (sK.rows.map (·.coeffs)))).length = sK.rows.length
+
+/-- **the decidable facts about the START under which a tolerance `tol > 0` decided as exact arithmetic would.**
+Direct start: no entry of `A` with `0 < |a| < tol`.  Two-phase start: phase 1 ended at value EXACTLY `0` with a
+non-negative basic solution, and the rows dropped as redundant have EXACTLY zero structural entries (the code tests
+`|·| < tol` in all three places; known finding `C14-absolute-tolerance-on-unscaled-data`). -/
+def StartFacts (tol : K) (se p1 : Nat) (sK : StdModel K) : Prop :=
+  (DirectStart tol sK ∧ Start.NoSubTol tol (sK.rows.map (·.coeffs))) ∨
+  (¬ DirectStart tol sK ∧ (TwoPhase.phase1Final tol se p1 sK).value = 0 ∧ Feasible (TwoPhase.phase1Final tol se p1 sK) ∧
+    ∀ r ∈ (TwoPhase.driveOutResult tol se p1 sK).2.2.2, ∀ j, j < sK.vars.length →
+      nth (row (TwoPhase.driveOutResult tol se p1 sK).1 r) j = 0)
+
+/-- **whatever tableau `into_tableau` returns for the standard form of a well-formed model is `CanonicalFor` it**, on
+either branch (C14 `into_tableau_canonical_partial` / `two_phase_start_canonical_partial` + C13 `std_shape`), under
+`StartFacts`. -/
+theorem intoTableau_canonicalFor {tol : K} (ht : 0 < tol) {lm : LinModel (Ext K)} (hW : WF lm)
+    {s : StdModel (Ext K)} (hs : standardize lm = .ok s) (se p1 : Nat) (hfacts : StartFacts tol se p1 (stdK s))
+    {T : Tab K} (hT : intoTableau tol se p1 (stdK s) = .ok T) : CanonicalFor T (stdK s) := by
+  obtain ⟨hrect, hobj, _⟩ := Props.C13.std_shape lm hW hs
+  have hrows : ∀ r ∈ (stdK s).rows, r.coeffs.length = (stdK s).vars.length := by
+    intro r hr
+    simp only [stdK, List.mem_map] at hr
+    obtain ⟨r0, hr0, rfl⟩ := hr
+    simpa using hrect r0 hr0
+  have hobj' : (stdK s).objective.length = (stdK s).vars.length := by simpa using hobj
+  rcases hfacts with ⟨hdir, hN⟩ | ⟨hnd, hv, hF, hd⟩
+  · obtain ⟨T', hT', hc⟩ := direct_start_canonicalFor ht hW hs se p1 hN hdir
+    rw [hT] at hT'; cases hT'
+    exact hc
+  · rw [Props.C14.into_tableau_two_phase_branch tol se p1 (stdK s) hnd] at hT
+    obtain ⟨hC, hO, hS, hFe, hfl, hoff⟩ :=
+      Props.C14.two_phase_start_canonical_partial ht (stdK s) se p1 hrows hobj' hv hF hd hT
+    exact ⟨hC, hO, hS, hFe, hfl, hoff⟩
+
 /-! ### the composition -/
 
 section
@@ -317,6 +356,20 @@ theorem unbounded_original (hW : WF lm) (hs : standardize lm = .ok s) (hT : Cano
     rw [← hobjx, stdObj_eq]
     simp only [hflip, hmax, decide_true, if_true] at hlt ⊢
     linarith
+
+/-- **a canonical feasible tableau of the standard form exists only for a FEASIBLE model**: its basic solution maps back
+to a feasible point of `lm`.  (So `into_tableau` can hand a tableau to the loop only when `lm` is feasible; the verdict
+`Infeasible` can only come from the start.) -/
+theorem canonicalFor_feasible (hW : WF lm) (hs : standardize lm = .ok s) (hT : CanonicalFor T (stdK s)) :
+    LinFeasible lm (preimage lm (basicSolution T)) := by
+  obtain ⟨m, hC⟩ := hT.canon
+  have hS := BasicSol.basicSolution_sol hC
+  have hn := BasicSol.basicSolution_nonneg hC hT.feasible
+  have hl : (basicSolution T).length = s.vars.length := by
+    rw [BasicSol.basicSolution_length, hC.rect.costs]; rfl
+  have hF : StdFeasible s (basicSolution T) :=
+    (stdFeasible_iff s _).mpr ⟨hl, nonneg_of_nth hn, (hT.sol _).mp hS⟩
+  exact (Props.C13.bwd lm hW hs _ hF).1
 
 /-- **phase 1 below zero ⇒ the ORIGINAL model is infeasible** (exact comparisons): C13 `fwd` + `std_shape` composed
 with C14 `phase1_feasible_value_bound` at `tol = 0`.  (`into_tableau_two_phase` reports `Infesible` when the phase-1
